@@ -295,7 +295,8 @@ class ManifestRecursiveLoader:
         to false.
         """
 
-        self.root_directory = os.path.dirname(top_manifest_path)
+        # NB: a bare file name gives '', and os.walk('') finds nothing
+        self.root_directory = os.path.dirname(top_manifest_path) or '.'
         self.openpgp_env = openpgp_env
         self.sign_openpgp = sign_openpgp
         self.openpgp_keyid = openpgp_keyid
